@@ -173,6 +173,53 @@ def crc_flag_implies_checksum_rule(ctx, mpq, pid):
         ctx.bad(R, "write_file|no-crc-flag", f.where, "FLAG_SECTOR_CRC is never set", "shape changed")
 
 
+def key_size_operand_rule(ctx, mpq, pid):
+    """(shared by C01 and C06) the size XOR-ed into the position-adjusted key is the file's *uncompressed* size: on the read side a
+    `.file_size` field on every branch; on the write side the length of the content parameter (or a size parameter), never the
+    length of something the writer produced (compressed output)"""
+    R_key = ctx.rule("%s.adjusted-key-uses-the-uncompressed-size" % pid, "the value XOR-ed into (key + position) is `.file_size` in every reader and the content parameter's length in every writer", floor=4)
+    fns = {norm(f.path): f for f in mpq.fn_list if f.kind != "Closure" and f.hir}
+    local_fns = {f.path: f for f in mpq.fn_list if f.kind != "Closure" and f.hir}
+    for path in ("archive::Archive::read_file", "archive::Archive::read_file_by_indices", "archive::Archive::read_patch_file_raw"):
+        f = fns.get(M + path)
+        if f is None:
+            continue
+        for x, x_ln in hirq.inline_local_calls(f.hir["body"], local_fns, lambda n_: n_.get("k") == "bin" and n_["op"] == "^" and "wrapping_add" in hirq.render(n_), depth=1, skip=re.compile(r"::crypto::|::compression::")):
+            size = x["r"] if "wrapping_add" in hirq.render(x["l"]) else x["l"]
+            leaves = hirq.value_leaves(f.hir["body"], size)
+            wrong = [("?" if v is None else hirq.render(v)) for v in leaves if v is None or not (v.get("k") == "field" and v["name"] == "file_size")]
+            if wrong or not leaves:
+                ctx.bad(R_key, "%s|size-operand" % path.split("::")[-1], "%s:%d" % (f.file, x_ln or x.get("ln") or 0), "the value XOR-ed into the adjusted key can be `%s`; the builder uses the uncompressed file size" % ", ".join(wrong or ["<nothing resolved>"]),
+                        "FIX_KEY files whose stored size differs from their size decrypt with the wrong key on that branch")
+            else:
+                ctx.ok(R_key, {"fn": path, "size_operand": sorted({hirq.render(v) for v in leaves})})
+            break
+
+    for path in ("modification::MutableArchive::prepare_file_data", "builder::ArchiveBuilder::calculate_file_key", "builder::ArchiveBuilder::write_file"):
+        f = fns.get(M + path)
+        if f is None:
+            continue
+        params = {b for p_ in f.hir["params"] for b in hirq.pat_binds(p_)}
+        for x in [n_ for n_ in hirq.walk(f.hir["body"]) if n_.get("k") == "bin" and n_["op"] == "^" and "wrapping_add" in hirq.render(n_)]:
+            size = x["r"] if "wrapping_add" in hirq.render(x["l"]) else x["l"]
+            leaves = hirq.value_leaves(f.hir["body"], size)
+            wrong = []
+            for v in leaves:
+                if v is None:
+                    wrong.append("?")
+                    continue
+                base = hirq.strip(v["recv"]) if v.get("k") == "mcall" and v["m"] == "len" else v
+                while base.get("k") in ("ref", "un", "cast"):
+                    base = hirq.strip(base["e"])
+                if not (base.get("k") == "path" and base["res"].get("local") in params):
+                    wrong.append(hirq.render(v))
+            if wrong or not leaves:
+                ctx.bad(R_key, "%s|size-operand" % path.split("::")[-1], "%s:%d" % (f.file, x.get("ln") or 0), "the writer XORs `%s` into the adjusted key; it is not the content it was handed (parameters: %s)" % (", ".join(wrong or ["<nothing>"]), ", ".join(sorted(params))[:60]),
+                        "when compression shrinks the data the file is encrypted with a key no reader derives: it is unreadable after reopen")
+            else:
+                ctx.ok(R_key, {"fn": path, "size_operand": sorted({hirq.render(v) for v in leaves})})
+
+
 def decision_bound_rule(ctx, mpq, pid):
     """(shared by C01 and C02) where a reader decides `stored < X => decompress`, X is the size it decompresses to in that arm"""
     fns = {norm(f.path): f for f in mpq.fn_list if f.kind != "Closure" and f.hir}
@@ -493,21 +540,7 @@ def run(ctx):
                 ctx.bad(R_key, "%s|position-operand" % path.split("::")[-1], "%s:%d" % (f.file, ln), "this reader adds `%s` into the key; its sibling readers add `%s`" % (r_, maj),
                         "the same FIX_KEY file decrypts through one entry point and not through the other whenever the two operands differ (archive not at offset 0)")
 
-    # 3c. the size operand of the adjusted key is the file's *uncompressed* size on every branch that can supply it
-    for path in ("archive::Archive::read_file", "archive::Archive::read_file_by_indices", "archive::Archive::read_patch_file_raw"):
-        f = fns.get(M + path)
-        if f is None:
-            continue
-        for x, x_ln in hirq.inline_local_calls(f.hir["body"], local_fns, lambda n_: n_.get("k") == "bin" and n_["op"] == "^" and "wrapping_add" in hirq.render(n_), depth=1, skip=re.compile(r"::crypto::|::compression::")):
-            size = x["r"] if "wrapping_add" in hirq.render(x["l"]) else x["l"]
-            leaves = hirq.value_leaves(f.hir["body"], size)
-            wrong = [("?" if v is None else hirq.render(v)) for v in leaves if v is None or not (v.get("k") == "field" and v["name"] == "file_size")]
-            if wrong or not leaves:
-                ctx.bad(R_key, "%s|size-operand" % path.split("::")[-1], "%s:%d" % (f.file, x_ln or x.get("ln") or 0), "the value XOR-ed into the adjusted key can be `%s`; the builder uses the uncompressed file size" % ", ".join(wrong or ["<nothing resolved>"]),
-                        "FIX_KEY files whose stored size differs from their size decrypt with the wrong key on that branch")
-            else:
-                ctx.ok(R_key, {"fn": path, "size_operand": sorted({hirq.render(v) for v in leaves})})
-            break
+    key_size_operand_rule(ctx, mpq, "C01")
 
     # 4. flags
     cg = mirg.CallGraph([mpq])
